@@ -212,7 +212,7 @@ def unit_table(h):
     for a in alphas:
         lo_c, up_c = ud.col(f"lower_{a}_turnout"), ud.col(f"upper_{a}_turnout")
         h.ensures(f"C03.reported_units_are_final[{a}]", z3.Implies(z3.And(rows, final), z3.And(ud.col("pred_turnout").t == t.res, lo_c.t == t.res, up_c.t == t.res)))
-        h.ensures(f"nonreporting_rows_carry_their_own_bounds[{a}]", z3.Implies(z3.And(rows, t.N), z3.And(lo_c.t == bounds[a][0].t, up_c.t == bounds[a][1].t, ud.col("pred_turnout").t == pred.t)))
+        h.ensures(f"nonreporting_rows_carry_their_own_bounds[{a}]", z3.Implies(z3.And(rows, t.N), z3.And(lo_c.t == bounds[a][0].t, up_c.t == bounds[a][1].t, ud.col("pred_turnout").t == pred.t)), replay=lambda ev: {"target": "verif_replays:unit_table_prediction_replay", "args": [], "check": "result['exc'] is None and result['ok']"})
     h.ensures("results_column_is_the_live_count", z3.Implies(rows, ud.col("results_turnout").t == t.res))
     h.ensures("C13.columns", list(ud.cols) == ["postal_code", "geographic_unit_fips", "pred_turnout", "reporting", "unit_category"] + [f"{s}_{a}_turnout" for a in alphas for s in ("lower", "upper")] + ["results_turnout"])
     h.ensures("sorted_by_unit_id", ud.axis.order == ("sorted", ("geographic_unit_fips",)))
